@@ -55,7 +55,7 @@ func (H) Describe(sc any) string {
 
 // Generate implements core.Harness.
 func (H) Generate(r *simrt.Rand, tier string) any {
-	s := &Scenario{Ctor: []string{"ordered", "less-desc", "less-string"}[r.Intn(3)], U: 2 + r.Intn(9)}
+	s := &Scenario{Ctor: []string{"ordered", "less-desc", "less-string", "less-ties"}[r.Intn(4)], U: 2 + r.Intn(9)}
 	for i := 0; i < r.Intn(9); i++ {
 		s.Init = append(s.Init, r.Intn(s.U))
 	}
@@ -68,6 +68,11 @@ func (H) Generate(r *simrt.Rand, tier string) any {
 	}
 	for i := 0; i < n; i++ {
 		o := Op{K: []string{"add", "add", "add", "remove", "remove", "removeat", "get", "index", "contains", "len"}[r.Intn(10)], V: r.Intn(s.U)}
+		if s.Ctor == "less-ties" && (o.K == "remove" || o.K == "index" || o.K == "contains") {
+			// with a less function that cannot tell some values apart the statement
+			// promises order and multiset only, not positions or look-ups
+			o.K = "add"
+		}
 		if o.K == "removeat" || o.K == "get" {
 			o.V = r.Intn(14) - 2 // inside and outside the bounds
 		}
@@ -105,6 +110,8 @@ func (H) Execute(scAny any, cfg simrt.Config, st *core.Stats) (*simrt.Outcome, *
 	changes := 0
 	body := func() {
 		switch sc.Ctor {
+		case "less-ties":
+			v, h, changes = runTies(sc)
 		case "less-desc":
 			v, h, changes = run(sc, func(i int) int { return i }, func(a, b int) bool { return a > b }, false)
 		case "less-string":
@@ -119,7 +126,101 @@ func (H) Execute(scAny any, cfg simrt.Config, st *core.Stats) (*simrt.Outcome, *
 	if pv := core.OutcomeViolation(out); pv != nil {
 		return out, pv
 	}
+	if out.Truncated && v == nil {
+		return out, core.NoProgress(out)
+	}
 	return out, v
+}
+
+type tie struct{ K, S int }
+
+// runTies: less compares K only. Checked: non-decreasing order under less and
+// exact multiset equality after every call, bounds panics; nothing about positions.
+func runTies(sc *Scenario) (*core.Violation, uint64, int) {
+	less := func(a, b tie) bool { return a.K < b.K }
+	var input []tie
+	for i, x := range sc.Init {
+		input = append(input, tie{x / 2, i})
+	}
+	snapshot := append([]tie(nil), input...)
+	s := slices.NewSorted(input, less)
+	model := map[tie]int{}
+	size := 0
+	for _, t := range input {
+		model[t]++
+		size++
+	}
+	var h uint64
+	changes := 0
+	seq := 1000
+	verify := func(i int, o Op) *core.Violation {
+		fail := func(sig, format string, a ...any) *core.Violation {
+			return &core.Violation{Signature: sig + ":ties", Detail: fmt.Sprintf("after op %d %s (less compares keys only, init=%v): ", i, o, sc.Init) + fmt.Sprintf(format, a...)}
+		}
+		if s.Len() != size {
+			return fail("len-mismatch", "Len()=%d want %d", s.Len(), size)
+		}
+		got := map[tie]int{}
+		for j := 0; j < s.Len(); j++ {
+			e := s.Get(j)
+			got[e]++
+			if j > 0 && less(e, s.Get(j-1)) {
+				return fail("not-sorted", "element %d (%v) is less than its predecessor (%v)", j, e, s.Get(j-1))
+			}
+		}
+		for k, n := range model {
+			if got[k] != n {
+				return fail("contents-mismatch", "value %v occurs %d times, expected %d", k, got[k], n)
+			}
+		}
+		for j := range snapshot {
+			if input[j] != snapshot[j] {
+				return fail("input-aliased", "the caller's input slice changed")
+			}
+		}
+		return nil
+	}
+	if v := verify(-1, Op{K: "new"}); v != nil {
+		return v, h, changes
+	}
+	for i, o := range sc.Ops {
+		simrt.Yield()
+		h = core.HashInts(h, int(o.K[0])+256*int(o.K[len(o.K)-1]), o.V)
+		switch o.K {
+		case "add":
+			seq++
+			e := tie{o.V / 2, seq}
+			s.Add(e)
+			model[e]++
+			size++
+			changes++
+		case "removeat":
+			in := o.V >= 0 && o.V < size
+			var e tie
+			if in {
+				e = s.Get(o.V)
+			}
+			p := panics(func() { s.RemoveAt(o.V) })
+			if p == in {
+				return &core.Violation{Signature: "removeat-bounds:ties", Detail: fmt.Sprintf("op %d RemoveAt(%d) with Len %d: panicked=%v", i, o.V, size, p)}, h, changes
+			}
+			if in {
+				model[e]--
+				size--
+				changes++
+			}
+		case "get":
+			in := o.V >= 0 && o.V < size
+			p := panics(func() { s.Get(o.V) })
+			if p == in {
+				return &core.Violation{Signature: "get-bounds:ties", Detail: fmt.Sprintf("op %d Get(%d) with Len %d: panicked=%v", i, o.V, size, p)}, h, changes
+			}
+		}
+		if v := verify(i, o); v != nil {
+			return v, h, changes
+		}
+	}
+	return nil, h, changes
 }
 
 func panics(f func()) (p bool) {
